@@ -7,9 +7,13 @@ use tiny_http::{Header, Request, Response, StatusCode};
 use vcore::conv::{resp_body, upgrade_reply, writer_bytes, Delivered, Finish, Prog, ReadObs, ReadPlan};
 
 pub fn parse_id(url: &str, nonce: &str) -> Option<u32> {
-    let rest = url.strip_prefix('/')?;
-    let rest = rest.strip_prefix(nonce)?;
-    let rest = rest.strip_prefix("/r")?;
+    // the marker "/<nonce>/r<id>" may be preceded by scheme and authority (absolute-form target)
+    let marker = format!("/{}/r", nonce);
+    let at = url.find(&marker)?;
+    if at != 0 && !url[..at].contains("://") {
+        return None;
+    }
+    let rest = &url[at + marker.len()..];
     let digits: String = rest.chars().take_while(|c| c.is_ascii_digit()).collect();
     if digits.is_empty() {
         return None;
